@@ -7,7 +7,7 @@ from corpus import corpus
 TEMPLATES = ["parens", "position", "position_fn", "func", "case", "subquery", "derived", "derived_select", "derived_join", "array", "bracket", "not", "neg",
              "cast", "interval", "interval_paren", "extract", "substring", "trim", "ceil", "overlay", "exists", "struct", "map", "dict", "convert",
              "join_parens", "in_list", "tuple", "between", "window", "lambda", "paren_tuple_lambda", "typed_paren", "explain", "explain_paren",
-             "datatype_array", "datatype_struct"]
+             "datatype_array", "datatype_struct", "pattern", "pattern_alt", "prior", "union_paren", "cte", "subscript"]
 
 
 def gen_all(run):
@@ -154,6 +154,30 @@ def check(run):
             viol += 1
             run.violation({"what": "work doubles with every nesting level" if kind == "exp" else "panic on nested input", "template": t, "dialect": d,
                            "input": "nest_text(%r, %d) of harness/vh/src/bin/drive.rs" % (t, info["n"]), "observed": info})
+
+    # 3b. very deep nests: every template at a depth far beyond any stack, one driver per case group; the process
+    # must come back with a value, an error or the limit error (an abort / stack overflow kills the driver: "crash")
+    dcases = [{"dialect": d, "template": t, "n": n} for t in TEMPLATES for d in (DIALECTS if run.tier == "thorough" else ["generic", "snowflake"])
+              for n in ((3000, 60000) if run.tier == "thorough" else (60000,))]
+    dres = run_bin_parallel("drive", ["deep"], dcases, timeout=900, on_fail="mark", case_timeout=120, shards=NCPU)
+    dstat = {}
+    for c, r in zip(dcases, dres):
+        dstat[r["status"]] = dstat.get(r["status"], 0) + 1
+        if r["status"] in ("crash", "hang", "panic"):
+            key = "deep:" + c["template"]
+            if key in known:
+                run.known(key, known[key])
+            elif ("exponential:" + c["template"]) in known and r["status"] == "hang":
+                run.known("exponential:" + c["template"], known["exponential:" + c["template"]])
+            else:
+                viol += 1
+                if viol <= 8:
+                    run.violation({"what": {"crash": "the process died while parsing a deeply nested input (stack overflow / abort)", "hang": "parsing a deeply nested input does not return",
+                                            "panic": "panic on a deeply nested input"}[r["status"]],
+                                   "template": c["template"], "dialect": c["dialect"],
+                                   "input": "nest_text(%r, %d) of harness/vh/src/bin/drive.rs" % (c["template"], c["n"]), "observed": {k: r.get(k) for k in ("status", "harness", "stderr")}})
+    run.add_eval(len(dcases), sum(1 for r in dres if r["status"] in ("ok", "error", "limit")))
+    run.notes["deep_nests"] = {"cases": len(dcases), "depths": sorted({c["n"] for c in dcases}), "outcomes": dstat}
 
     for x in not_covered:
         if viol == 0:
